@@ -127,6 +127,8 @@ int Simulate8008::run(int max_cycles, int step)
 
   printf("Running... Press Ctl-C to break.\n");
 
+  stop_running = false;
+
   while (stop_running == false)
   {
     pc_current = pc;
